@@ -104,8 +104,8 @@ impl Rule {
         if self.name == "Whitespace" && !flags.no_skip_ws {
             bail!("The 'Whitespace' rule (and all called rules) must be @no_skip_ws to prevent recursion");
         }
-        if flags.memoize && !settings.derives.contains(&"Clone".into()) {
-            bail!("@memoize can only be used if 'Clone' is in the derives set");
+        if (flags.memoize || flags.left_recursive) && !settings.derives.contains(&"Clone".into()) {
+            bail!("@memoize and @leftrec can only be used if 'Clone' is in the derives set");
         }
         Ok(())
     }
